@@ -14,12 +14,12 @@ theorem wcInit_eq : Src.wcInit = 1 := by unfold Src.wcInit; omega
 /-- `inc()` reports "still available" unless the old raw value equals the limit, i.e. unless the
 worker now has `limit` connections in progress -/
 theorem incStill_iff (old L : Nat) : Src.wcIncStill old L = true ↔ old ≠ L := by
-  unfold Src.wcIncStill; simp
+  unfold Src.wcIncStill; simp only [decide_eq_true_eq, bne_iff_ne, ne_eq, decide_not, Bool.not_eq_true', decide_eq_false_iff_not] <;> omega
 
 /-- `dec()` reports "crossed the limit" exactly for the release that takes a saturated worker
 (raw value `L + 1`, i.e. `L` connections in progress) below the limit -/
 theorem decCrossed_iff (old L : Nat) (h : 1 ≤ old) : Src.wcDecCrossed old L = true ↔ old = L + 1 := by
-  unfold Src.wcDecCrossed; simp; omega
+  unfold Src.wcDecCrossed; simp only [decide_eq_true_eq, beq_iff_eq] <;> omega
 
 theorem wcTotal_eq (raw : Nat) : Src.wcTotal raw = raw - 1 := by unfold Src.wcTotal; omega
 
